@@ -8,8 +8,10 @@ extern "C" size_t __sanitizer_get_current_allocated_bytes(void);  // ASan alloca
 #include <stdint.h>
 #include <stdio.h>
 #include <string.h>
+#include <algorithm>
 #include <new>
 #include <string>
+#include <utility>
 #include <vector>
 #define private public
 #include "ola/DmxBuffer.h"
@@ -21,17 +23,32 @@ using ola::DmxBuffer;
 using std::string;
 using std::vector;
 
-static const int NSLOTS = 4;
+static const int NSLOTS = 4;      // pool objects in raw storage: logical positions 0..3
+static const int NVEC = 4;        // at most 4 elements of a std::vector<DmxBuffer>: logical positions 4..7
+static const int NLOG = NSLOTS + NVEC;
 static const size_t BLOCK_BYTES = 512 + sizeof(unsigned int);
 
 struct Pool {
   // raw storage, heap allocated per slot so that ASan sees accesses to a destroyed object's block
   alignas(DmxBuffer) unsigned char raw[NSLOTS][sizeof(DmxBuffer)];
-  bool live[NSLOTS];
-  Pool() { for (int i = 0; i < NSLOTS; i++) live[i] = false; }
-  DmxBuffer *at(int i) { return reinterpret_cast<DmxBuffer*>(raw[i]); }
-  ~Pool() { for (int i = 0; i < NSLOTS; i++) if (live[i]) at(i)->~DmxBuffer(); }
+  bool live_[NSLOTS];
+  std::vector<DmxBuffer> vec;     // never grows beyond NVEC elements; capacity changes only by "vrealloc"
+  Pool() { for (int i = 0; i < NSLOTS; i++) live_[i] = false; vec.reserve(NVEC); }
+  bool live(int i) const {
+    return i < NSLOTS ? live_[i] : static_cast<size_t>(i - NSLOTS) < vec.size();
+  }
+  DmxBuffer *at(int i) {
+    if (i < NSLOTS) return reinterpret_cast<DmxBuffer*>(raw[i]);
+    return live(i) ? &vec[i - NSLOTS] : NULL;
+  }
+  ~Pool() { for (int i = 0; i < NSLOTS; i++) if (live_[i]) at(i)->~DmxBuffer(); }
 };
+
+// a by-value return: the compiler may construct the result in place, copy it or move it
+static DmxBuffer __attribute__((noinline)) Snapshot(const DmxBuffer &b) {
+  DmxBuffer copy(b);
+  return copy;
+}
 
 static string rle(const uint8_t *a, size_t n) {
   if (n == 0) return "-";
@@ -76,7 +93,7 @@ struct Ptr {   // a caller's array: null, or an exact-size heap copy
 };
 
 static string probes(Pool *pool, int i) {
-  if (!pool->live[i]) return vh::str(i) + "/raw";
+  if (!pool->live(i)) return vh::str(i) + "/raw";
   const DmxBuffer &b = *pool->at(i);
   unsigned int z = b.Size();
   unsigned int zm1 = z ? z - 1 : 0;
@@ -108,9 +125,13 @@ static string probes(Pool *pool, int i) {
 }
 
 static string slot_str(Pool *pool, int i) {
-  if (!pool->live[i]) return "-";
+  if (!pool->live(i)) return "-";
   const DmxBuffer &b = *pool->at(i);
   return vh::str(b.Size()) + ":" + rle(b.Get());
+}
+
+static int fi(const vector<string> &f, size_t k) {
+  return k < f.size() ? static_cast<int>(vh::num(f[k])) : 0;
 }
 
 static string handle(const string &payload_in) {
@@ -126,9 +147,14 @@ static string handle(const string &payload_in) {
     if (toks[ti].empty()) continue;
     vector<string> f = vh::split(toks[ti], ',');
     const string &name = f[0];
-    int i = static_cast<int>(vh::num(f[1]));
-    int j = (name == "cpy" || name == "asg" || name == "setb" || name == "htp" || name == "setraw") ?
-            static_cast<int>(vh::num(f[2])) : (name == "srraw" ? static_cast<int>(vh::num(f[3])) : 0);
+    const bool lifetime = (name == "new" || name == "cpy" || name == "newd" || name == "news" || name == "del");
+    const bool vecop = (name.size() > 1 && name[0] == 'v');
+    int i = fi(f, 1);
+    int j = (name == "cpy" || name == "asg" || name == "setb" || name == "htp" || name == "setraw" ||
+             name == "asgt" || name == "asgr" || name == "swap" || name == "vins") ? fi(f, 2)
+            : (name == "srraw" ? fi(f, 3) : ((name == "vpush" || name == "vpusht") ? fi(f, 1) : 0));
+    if (i < 0 || i >= NLOG) i = 0;
+    if (j < 0 || j >= NLOG) j = 0;
     string ret = "skip";
     // arguments are prepared before, and released after, the two heap measurements
     Ptr *ptr = NULL;
@@ -138,29 +164,33 @@ static string handle(const string &payload_in) {
     if (name == "sets") { vector<uint8_t> v = vh::unhex(f[2]); sarg.assign(v.begin(), v.end()); }
     if (name == "sft" || name == "news") { vector<uint8_t> v = vh::unhex(f[2]); sarg.assign(v.begin(), v.end()); }
     ret.reserve(8);
+    std::vector<DmxBuffer> &vec = pool->vec;
+    const size_t vs = vec.size();
+    const size_t cap_before = vec.capacity();
     size_t before = __sanitizer_get_current_allocated_bytes();
-    bool li = pool->live[i], lj = pool->live[j];
-    DmxBuffer *bi = pool->at(i), *bj = pool->at(j);
+    bool li = vecop ? false : pool->live(i), lj = pool->live(j);
+    DmxBuffer *bi = vecop ? NULL : pool->at(i), *bj = pool->at(j);
     int rv = -1;   // -1 skip, 2 unit, 0/1 bool
-    if (name == "new") { if (!li) { new (bi) DmxBuffer(); pool->live[i] = true; rv = 2; } }
-    else if (name == "cpy") { if (!li && lj) { new (bi) DmxBuffer(*bj); pool->live[i] = true; rv = 2; } }
-    else if (name == "newd") { if (!li) { new (bi) DmxBuffer(ptr->p, vh::num(f[3])); pool->live[i] = true; rv = 2; } }
-    else if (name == "del") { if (li) { bi->~DmxBuffer(); pool->live[i] = false; rv = 2; } }
+    if (lifetime && i >= NSLOTS) { /* the vector manages the lifetime of its elements: skipped */ }
+    else if (name == "new") { if (!li) { new (bi) DmxBuffer(); pool->live_[i] = true; rv = 2; } }
+    else if (name == "cpy") { if (!li && lj) { new (bi) DmxBuffer(*bj); pool->live_[i] = true; rv = 2; } }
+    else if (name == "newd") { if (!li) { new (bi) DmxBuffer(ptr->p, vh::num(f[3])); pool->live_[i] = true; rv = 2; } }
+    else if (name == "del") { if (li) { bi->~DmxBuffer(); pool->live_[i] = false; rv = 2; } }
     else if (name == "asg") { if (li && lj) { *bi = *bj; rv = 2; } }
     else if (name == "setb") { if (li && lj) rv = bi->Set(*bj); }
     else if (name == "setp") { if (li) rv = bi->Set(ptr->p, vh::num(f[3])); }
     else if (name == "sets") { if (li) rv = bi->Set(sarg); }
     else if (name == "sft") { if (li) rv = bi->SetFromString(sarg); }
-    else if (name == "news") { if (!li) { new (bi) DmxBuffer(sarg); pool->live[i] = true; rv = 2; } }
+    else if (name == "news") { if (!li) { new (bi) DmxBuffer(sarg); pool->live_[i] = true; rv = 2; } }
     // a pointer into ANOTHER live buffer's storage; contract: different object, k + n <= Size()
     else if (name == "setraw") {
-      unsigned long long k = vh::num(f[3]), n = vh::num(f[4]);
-      if (li && lj && i != j && k + n <= bj->Size())
-        rv = bi->Set(bj->GetRaw() ? bj->GetRaw() + k : NULL, n);
+      unsigned long long kk = vh::num(f[3]), n = vh::num(f[4]);
+      if (li && lj && i != j && kk + n <= bj->Size())
+        rv = bi->Set(bj->GetRaw() ? bj->GetRaw() + kk : NULL, n);
     } else if (name == "srraw") {
-      unsigned long long k = vh::num(f[4]), n = vh::num(f[5]);
-      if (li && lj && i != j && k + n <= bj->Size())
-        rv = bi->SetRange(vh::num(f[2]), bj->GetRaw() ? bj->GetRaw() + k : NULL, n);
+      unsigned long long kk = vh::num(f[4]), n = vh::num(f[5]);
+      if (li && lj && i != j && kk + n <= bj->Size())
+        rv = bi->SetRange(vh::num(f[2]), bj->GetRaw() ? bj->GetRaw() + kk : NULL, n);
     }
     else if (name == "srv") { if (li) rv = bi->SetRangeToValue(vh::num(f[2]), vh::num(f[3]), vh::num(f[4])); }
     else if (name == "sr") { if (li) rv = bi->SetRange(vh::num(f[2]), ptr->p, vh::num(f[4])); }
@@ -168,10 +198,31 @@ static string handle(const string &payload_in) {
     else if (name == "htp") { if (li && lj) rv = bi->HTPMerge(*bj); }
     else if (name == "bo") { if (li) rv = bi->Blackout(); }
     else if (name == "rst") { if (li) { bi->Reset(); rv = 2; } }
+    // ---- expressions that copy, assign or move whole buffers.  Whatever members DmxBuffer has (copy
+    // only, or copy and move), a buffer is a value: the meaning is that of the copy operations.
+    else if (name == "asgt") { if (li && lj) { *bi = DmxBuffer(*bj); rv = 2; } }       // from a temporary
+    else if (name == "asgr") { if (li && lj) { *bi = Snapshot(*bj); rv = 2; } }        // from a by-value return
+    else if (name == "swap") { if (li && lj) { std::swap(*bi, *bj); rv = 2; } }
+    else if (name == "vpush") { if (vs < NVEC && lj) { vec.push_back(*bj); rv = 2; } }
+    else if (name == "vpusht") { if (vs < NVEC && lj) { vec.push_back(DmxBuffer(*bj)); rv = 2; } }
+    else if (name == "vpop") { if (vs > 0) { vec.pop_back(); rv = 2; } }
+    else if (name == "verase") {
+      size_t pos = fi(f, 1);
+      if (pos < vs) { vec.erase(vec.begin() + pos); rv = 2; }
+    } else if (name == "vins") {
+      size_t pos = fi(f, 1);
+      if (vs < NVEC && pos <= vs && lj) { vec.insert(vec.begin() + pos, *bj); rv = 2; }
+    } else if (name == "vresize") {
+      size_t n = fi(f, 1);
+      if (n <= NVEC) { vec.resize(n); rv = 2; }
+    } else if (name == "vrealloc") { vec.reserve(vec.capacity() + NVEC); rv = 2; }
+    else if (name == "vrev") { std::reverse(vec.begin(), vec.end()); rv = 2; }
     else { delete ptr; delete pool; return "bad-op"; }
     size_t after = __sanitizer_get_current_allocated_bytes();
     delete ptr;
     long delta = static_cast<long>(after) - static_cast<long>(before);
+    // the vector's own storage is not a DMX block
+    delta -= (static_cast<long>(vec.capacity()) - static_cast<long>(cap_before)) * static_cast<long>(sizeof(DmxBuffer));
     string hb;
     if (delta % static_cast<long>(BLOCK_BYTES) == 0) {
       blocks += delta / static_cast<long>(BLOCK_BYTES);
@@ -179,33 +230,40 @@ static string handle(const string &payload_in) {
     } else {
       hb = "odd-delta" + vh::str(delta);
     }
+    if (vec.size() > static_cast<size_t>(NVEC)) { delete pool; return "harness-vector-overflow"; }
+    // the position the probes look at
+    int tg = i;
+    if (name == "vpush" || name == "vpusht") tg = NSLOTS + static_cast<int>(vec.size()) - 1;
+    else if (name == "vpop" || name == "vresize" || name == "vrealloc" || name == "vrev") tg = NSLOTS;
+    else if (name == "verase" || name == "vins") tg = NSLOTS + fi(f, 1);
+    if (tg < 0 || tg >= NLOG) tg = 0;
     if (rv == 2) { ret = "u"; accepted++; }
     else if (rv == 1) { ret = "1"; accepted++; }
     else if (rv == 0) { ret = "0"; refused++; }
     out += "o" + vh::str(k) + "=" + ret;
-    for (int s = 0; s < NSLOTS; s++) out += "|" + slot_str(pool, s);
+    for (int s = 0; s < NLOG; s++) out += "|" + slot_str(pool, s);
     out += "|";
-    for (int a = 0; a < NSLOTS; a++)
-      for (int b = 0; b < NSLOTS; b++) {
-        if (!pool->live[a] || !pool->live[b]) { out += "x"; continue; }
+    for (int a = 0; a < NLOG; a++)
+      for (int b = 0; b < NLOG; b++) {
+        if (!pool->live(a) || !pool->live(b)) { out += "x"; continue; }
         bool e = *pool->at(a) == *pool->at(b);
         bool ne = *pool->at(a) != *pool->at(b);
         out += (e == ne) ? "?" : (e ? "1" : "0");
       }
-    out += "|" + probes(pool, i);
-    int other = k % NSLOTS;
-    if (other != i) out += "|" + probes(pool, other);
+    out += "|" + probes(pool, tg);
+    int other = k % NLOG;
+    if (other != tg) out += "|" + probes(pool, other);
     out += ";i" + vh::str(k) + "=";
-    for (int s = 0; s < NSLOTS; s++) {
+    for (int s = 0; s < NLOG; s++) {
       if (s) out += ",";
-      if (!pool->live[s]) { out += "-"; continue; }
+      if (!pool->live(s)) { out += "-"; continue; }
       const DmxBuffer *b = pool->at(s);
       if ((b->m_data == NULL) != (b->m_ref_count == NULL)) { out += "HALFNULL"; continue; }
       if (b->GetRaw() != b->m_data) { out += "GETRAW!"; continue; }
       string cls = "n";
       if (b->m_data) {
-        for (int t = 0; t < NSLOTS; t++)
-          if (pool->live[t] && pool->at(t)->m_data == b->m_data) {
+        for (int t = 0; t < NLOG; t++)
+          if (pool->live(t) && pool->at(t)->m_data == b->m_data) {
             cls = vh::str(t);
             if (pool->at(t)->m_ref_count != b->m_ref_count) cls += "RCPTR!";
             break;
